@@ -1,7 +1,7 @@
 (* Correspondence run for C20: case = what was written + what the real loaders did with it. *)
 From Coq Require Import List ZArith NArith Bool String.
 Import ListNotations.
-From SygmaV Require Export Lib.RunLib Model.C20.
+From SygmaV Require Export Lib.RunLib Lib.Hex Model.C20.
 Local Open Scope Z_scope.
 
 Inductive case :=
@@ -9,7 +9,29 @@ Inductive case :=
 | Dur (text : string) (impl : option Z)               (* a duration field; impl in nanoseconds *)
 | Chain (c : chain_in) (impl : chain_obs)             (* NewEVMConfig / NewSubstrateConfig / NewBtcConfig *)
 | Net (v : Z) (impl : option Z)                        (* substrateNetwork through NewSubstrateConfig *)
-| Merge (locals shared : list obj) (impl : option (list obj)).   (* processRawConfig *)
+| Merge (locals shared : list obj) (impl : option (list obj))    (* processRawConfig *)
+(* string / bool / list settings of the relayer configuration or of one chain configuration, written
+   through the file or env loader (chains also: handed to the constructor directly): rule and written
+   text per setting, and the values found in the loaded configuration *)
+| Strs (ws : list (str_rule * option string)) (impl : option (list string))
+| Level (text : string) (impl : option string).                 (* LogLevel; impl = Level.String() *)
+
+(* texts that are not printable ASCII are written by the runner as [hs "<hex of the UTF-8 bytes>"] *)
+Definition hs (h : string) : string := string_of_bytes (unhex h).
+
+Definition opt_string_eqb (a b : option string) : bool :=
+  match a, b with
+  | Some x, Some y => String.eqb x y
+  | None, None => true
+  | _, _ => false
+  end.
+
+Fixpoint strings_eqb (a b : list string) : bool :=
+  match a, b with
+  | [], [] => true
+  | x :: a', y :: b' => String.eqb x y && strings_eqb a' b'
+  | _, _ => false
+  end.
 
 Definition opt_Z_eqb (a b : option Z) : bool :=
   match a, b with
@@ -57,6 +79,13 @@ Definition agree (c : case) : bool :=
       | None, None => true
       | _, _ => false
       end
+  | Strs ws impl =>
+      match load_strings ws, impl with
+      | Some a, Some b => strings_eqb a b
+      | None, None => true
+      | _, _ => false
+      end
+  | Level t impl => opt_string_eqb (parse_level t) impl
   end.
 
 Definition judge (c : case) : bool :=
@@ -66,6 +95,8 @@ Definition judge (c : case) : bool :=
   | Chain ci impl => chain_ok ci impl
   | Net v impl => net_ok v impl
   | Merge l s impl => merge_ok l s impl
+  | Strs ws impl => strs_ok ws impl
+  | Level t impl => level_ok t impl
   end.
 
 Definition some_b {A} (o : option A) : N := match o with Some _ => 1%N | None => 0%N end.
@@ -78,6 +109,8 @@ Definition tag (c : case) : N :=
       (4 + 2 * match ci_kind ci with Evm => 0 | Sub => 1 | Btc => 2 end + some_b (model_chain ci))%N
   | Net v _ => (12 + some_b (parse_net v))%N
   | Merge l s _ => (10 + some_b (process l s))%N
+  | Strs ws _ => (14 + some_b (load_strings ws))%N
+  | Level t _ => (16 + some_b (parse_level t))%N
   end.
 
 Definition check_all := check_cases agree judge tag.
